@@ -932,6 +932,7 @@ func VerifyFunc(w *World, prog *Program, fi *FuncInfo) *FuncResult {
 		}()
 		if fi.Contr != nil && fi.Contr.Has("trusted", 0) {
 			fv.note("trusted: body of %s not verified", fi.Key)
+			fv.scanTrustedFrame()
 		} else {
 			fv.verifyUnit(nil)
 		}
@@ -972,7 +973,7 @@ func VerifyFunc(w *World, prog *Program, fi *FuncInfo) *FuncResult {
 		}
 		fv.framedLits = returned
 		for _, l := range ls {
-			if fi.Contr != nil && (fi.Contr.Has("ensures", l.ord) || fi.Contr.Has("invariant", l.ord) || fi.Contr.Has("yields", l.ord) || fi.Contr.Has("yields2", l.ord) || fi.Contr.Has("nopanic", l.ord) || fi.Contr.Has("noglobals", l.ord) || fi.Contr.Has("noglobalstate", l.ord)) {
+			if fi.Contr != nil && (fi.Contr.Has("ensures", l.ord) || fi.Contr.Has("invariant", l.ord) || fi.Contr.Has("yields", l.ord) || fi.Contr.Has("yields2", l.ord) || fi.Contr.Has("nopanic", l.ord) || fi.Contr.Has("panics", l.ord) || fi.Contr.Has("noglobals", l.ord) || fi.Contr.Has("noglobalstate", l.ord)) {
 				fv.verifyUnit(l.lit)
 			} else if returned[l.lit] && len(l.lit.Body.List) > 0 {
 				// frame only: the other obligations of an uncontracted literal are not claims of this contract
@@ -1154,6 +1155,69 @@ func (fv *FuncVerifier) prepareLoopGhostTypes() {
 			}
 		}
 	}
+}
+
+// scanTrustedFrame: a `trusted` function with a `preserves` frame is not verified - its frame is a listed assumption. What
+// CAN be done mechanically is a scan of its body (function literals included) for the statements that would plainly
+// break the assumed frame: a mutating method of a sync.Map when the frame names `$syncmap:`, and an assignment to a
+// field (or to an element of a field) of a struct type of /repo whose key falls under a preserved prefix. The result is
+// one obligation `R.frame-scan` (decided by the analysis, no solver; NOT a proof of the frame: calls are not followed).
+func (fv *FuncVerifier) scanTrustedFrame() {
+	fi := fv.fn
+	pfx, exc := preservesOf(fi.Contr)
+	if pfx == "" || fi.Decl == nil || fi.Decl.Body == nil {
+		return
+	}
+	info := fi.Pkg.TypesInfo
+	keep := havocEvent{prefix: pfx, except: exc}
+	var bad []string
+	fieldKeyOf := func(e ast.Expr) string {
+		for {
+			switch x := ast.Unparen(e).(type) {
+			case *ast.IndexExpr:
+				e = x.X
+				continue
+			case *ast.StarExpr:
+				e = x.X
+				continue
+			case *ast.SelectorExpr:
+				if sel, ok := info.Selections[x]; ok && sel.Kind() == types.FieldVal {
+					return fieldKey(sel.Recv(), x.Sel.Name)
+				}
+			}
+			return ""
+		}
+	}
+	ast.Inspect(fi.Decl.Body, func(n ast.Node) bool {
+		switch x := n.(type) {
+		case *ast.AssignStmt:
+			for _, l := range x.Lhs {
+				if k := fieldKeyOf(l); k != "" && strings.HasPrefix(k, "pkg/") && keep.preserves(k) {
+					bad = append(bad, "stores to "+k+" at "+fv.pos(l.Pos()))
+				}
+			}
+		case *ast.IncDecStmt:
+			if k := fieldKeyOf(x.X); k != "" && strings.HasPrefix(k, "pkg/") && keep.preserves(k) {
+				bad = append(bad, "stores to "+k+" at "+fv.pos(x.Pos()))
+			}
+		case *ast.CallExpr:
+			if fn, ok := calleeOf(info, x).(*types.Func); ok && strings.Contains(pfx, "$syncmap:") {
+				switch fn.FullName() {
+				case "(*sync.Map).Store", "(*sync.Map).LoadOrStore", "(*sync.Map).Swap", "(*sync.Map).CompareAndSwap", "(*sync.Map).Delete", "(*sync.Map).LoadAndDelete", "(*sync.Map).CompareAndDelete", "(*sync.Map).Clear":
+					bad = append(bad, "calls "+fn.FullName()+" at "+fv.pos(x.Pos()))
+				}
+			}
+		}
+		return true
+	})
+	status, desc := "unsat", "scan of the trusted body: no assignment to a field under the assumed `preserves` frame and no mutating sync.Map call (mechanical scan, calls not followed - the frame itself stays an assumption)"
+	if len(bad) > 0 {
+		sort.Strings(bad)
+		status, desc = "failed", "the trusted body plainly breaks its assumed frame: "+strings.Join(bad, "; ")
+	}
+	pos := fi.Decl.Body.Lbrace
+	fv.obls = append(fv.obls, &Obligation{Func: fi.Key, Class: "R", Kind: "frame-scan", Site: pos, Pos: fv.pos(pos), Goal: True,
+		Desc: desc, consts: fv.consts, Name: fi.Key + "#R.frame-scan[trusted]", Status: status, Solver: "govc-analysis"})
 }
 
 // verifyUnit verifies the function body (lit == nil) or one contracted function literal.
